@@ -29,7 +29,7 @@ def partition(draw, d):
     groups = {}
     for i, l in enumerate(labels):
         groups.setdefault(l, []).append(i)
-    gl = list(groups.values())
+    gl = [list(draw(st.permutations(g))) for g in groups.values()]  # indices inside a group come in any order
     perm = draw(st.permutations(range(len(gl))))
     return [gl[i] for i in perm]
 
@@ -46,7 +46,7 @@ def pick_alpha(kind, free, W, row):
 
 @st.composite
 def lin_case(draw, grouped):
-    d = draw(st.integers(1, 6))
+    d = draw(st.integers(1, 7))
     h = draw(st.integers(1, 6))
     W = draw(matrix(d, h))
     case = {"W": W, "alpha_kind": draw(alpha_kind), "alpha_free": draw(st.floats(-1, 1, width=64)),
@@ -117,7 +117,7 @@ M_values = st.sampled_from([0.0, 0.1, 1.0, 10.0, 100.0, 0.5, 3.0])
 
 @st.composite
 def mlp_case(draw, grouped):
-    d = draw(st.integers(1, 5))
+    d = draw(st.integers(1, 7))
     K = draw(st.integers(1, 4))
     h = draw(st.integers(1, 6))
     V = draw(matrix(d, K))
